@@ -87,6 +87,10 @@ pub fn num_variants(nonfinite: bool) -> Vec<RVal> {
         RVal::f(-1.0),
         RVal::u(2),
         RVal::f(1.5),
+        RVal::f(-1.5),
+        RVal::f(-0.5),
+        RVal::i(-2),
+        RVal::f(-2.5),
         RVal::u(1 << 53),
         RVal::f(9007199254740992.0),
         RVal::u((1 << 53) + 1),
